@@ -3,6 +3,7 @@ CONSTANTS
   NP = 1
   MaxOps = 100000000
   Pace = TRUE
+  MaxLevel = 1000000
   NVoters = 3
   KF_OrphanFirstMatchOnly = FALSE
   KF_StaleMarkers = FALSE
